@@ -26,7 +26,12 @@ CLAIM = dict(
          "(evaluated by the check for every (transformTR, transformInv) pair assigned anywhere in the package source); "
          "symmetrize_tensor is idempotent, invariant under every element, and fixes exactly the invariant tensors (also "
          "proved for any list-group acting additively); star = images with later duplicates (mod lattice) removed: "
-         "sublist, pairwise inequivalent, covers every image, first occurrence kept.",
+         "sublist, pairwise inequivalent, covers every image, first occurrence kept.  Named operations: Rotation(n, axis) "
+         "(n in 1,2,3,4,6; axes x,y,z and body diagonals; Rodrigues matrix, sqrt3 a parameter with s3^2=3) is a proper "
+         "operation with an orthogonal matrix of determinant 1 and order n, Mirror(axis) is minus the two-fold rotation "
+         "(det -1, involution), every name of dict_sym denotes the documented matrix and TR flag, from_string_prod is the "
+         "left-to-right product.  EnergyResult / KBandResult / ResultDict.transform delegate to transform_tensor with the "
+         "result's own rank and transforms, hence PointGroup.symmetrize(result) is idempotent and invariant.",
     note="Trusted: Lean kernel + Mathlib; the harness; the tolerances 1e-12 (__eq__) and 1e-6 (lattice/star) are "
          "modelled as exact comparisons and inputs keep a >=1e3 margin; numpy matmul/det/inv by contract. "
          "Result.transform / PointGroup.symmetrize(result) glue is checked on the real code, not modelled. "
@@ -37,9 +42,12 @@ TRUSTED = [
     "modelled: PointSymmetry.__init__/__mul__/__eq__/transform_reduced_vector/rotate/transform_tensor, the closure loop of "
     "PointGroup.__init__, check_basis_symmetry, symmetric_grid, symmetrize_tensor, star, Transform.__call__ "
     "(factor, conj, transpose_axes; swap_axes of two trailing axes is mapped to a transposition by the harness), TransformProduct",
-    "not modelled (oracle only): Rotation/Mirror/from_string constructors, the spacegroup/dictionary branches of "
-    "PointGroup.__init__, EnergyResult/KBandResult/ResultDict.transform and PointGroup.symmetrize(result), leading "
-    "(non-tensor) axes of the data (the model is applied slice by slice)",
+    "also modelled: Rotation(n, axis) for n in {1,2,3,4,6} and axes +-x, +-y, +-z, (+-1,+-1,+-1) (Rodrigues' formula; "
+    "scipy's from_rotvec(..).as_matrix() and the axis normalisation are the contract), Mirror, dict_sym, from_string_prod "
+    "(executed in Q(sqrt 3)); Result.transform / ResultDict.transform / PointGroup.symmetrize(result) as delegation to "
+    "transform_tensor (leading energy / band axes: slice by slice)",
+    "not modelled (oracle only): Rotation about general axes or with other n, the spacegroup/dictionary branches of "
+    "PointGroup.__init__, leading (non-tensor) axes of the data",
     "tolerances of the code (1e-12 in __eq__, 1e-6 in check_basis_symmetry / star) are exact comparisons in the model; "
     "generated matrices, lattices and k-points are rational so that non-ties are >= 1e-3 away",
     "hexagonal / rhombohedral groups are compared in lattice coordinates (integer matrices Q = A^-T R A^T, Gram matrix "
@@ -531,6 +539,14 @@ def corr_side_conditions(ctx, lines, checks):
 
 # ------------------------------------------------------------------------------------------------
 
+def _raises(f):
+    try:
+        f()
+        return False
+    except Exception:  # noqa
+        return True
+
+
 def corr(ctx):
     from wannierberri.symmetry.point_symmetry import PointSymmetry, TransformProduct
     rng = ctx.rng
@@ -704,12 +720,87 @@ def corr(ctx):
         checks.append(("tprod", dict(ts=ts), exp))
         ctx.count(f"corr.tprod={'ERR' if exp == 'ERR' else 'ok'}")
 
+
+    # --- named operations: dict_sym, from_string_prod, Rotation(n, axis), Mirror(axis)  (model executed in Q(sqrt 3))
+    from wannierberri.symmetry import point_symmetry as psm
+    names = list(psm.dict_sym)
+    named_cases = [[nm] for nm in names]
+    for _ in range(ctx.n(12, 60)):
+        named_cases.append([rng.choice(names) for _ in range(rng.randint(2, 4))])
+    for lst in named_cases:
+        string = "*".join(lst)
+        with ctx.attempt("from_string_prod", dict(string=string)):
+            g = psm.from_string_prod(string)
+            lines.append(f"named {string}")
+            checks.append(("named", dict(string=string), ("qs3", np.array(g.R, dtype=float), bool(g.Inv), bool(g.TR))))
+            ctx.count(f"corr.named.factors={len(lst)}")
+    lines.append("named C4z*Foo")
+    checks.append(("named", dict(string="C4z*Foo"), "ERR" if _raises(lambda: psm.from_string_prod("C4z*Foo")) else "no-error"))
+    axes = [[1, 0, 0], [0, 1, 0], [0, 0, 1], [-1, 0, 0], [0, 0, -1], [1, 1, 1], [-1, 1, 1], [1, -1, -1], [-1, -1, -1]]
+    for _ in range(ctx.n(14, 60)):
+        n = rng.choice([1, 2, 3, 4, 6])
+        ax = rng.choice(axes)
+        scale_ax = rng.choice([1, 1, 2, 0.5, 3])            # the code normalises the axis
+        with ctx.attempt("Rotation / Mirror", dict(n=n, axis=ax, scale=scale_ax)):
+            R = psm.Rotation(n, [a * scale_ax for a in ax])
+            lines.append(f"rot {n} {ints(ax)}")
+            checks.append(("rot", dict(n=n, axis=ax), ("qs3", np.array(R.R, dtype=float), bool(R.Inv), bool(R.TR))))
+            M = psm.Mirror([a * scale_ax for a in ax])
+            lines.append(f"mir {ints(ax)}")
+            checks.append(("mir", dict(axis=ax), ("qs3", np.array(M.R, dtype=float), bool(M.Inv), bool(M.TR))))
+    # --- Result.transform delegates to transform_tensor with the result's own rank and transforms
+    from wannierberri.result import EnergyResult, KBandResult, ResultDict
+    for _ in range(ctx.n(8, 40)):
+        fam = Family(rng, rng.choice(["cubic", "tetra", "ortho"]))
+        names_g, trs_g, gens_g, cl_g = random_generators(rng, fam, 16)
+        with ctx.attempt("Result.transform", dict(generators=names_g, TR=trs_g)):
+            grp = build_code_group(fam, names_g, trs_g)
+            elems = code_elements(fam, grp)
+            i = rng.randrange(len(elems))
+            sym = grp.symmetries[i]
+            rank = rng.choice([0, 1, 2, 3])
+            tT, tI = rand_transform_pair(rng, rank, valid=True)
+            tT["conj"] = tI["conj"] = False
+            cT, cI = code_transform(tT), code_transform(tI)
+            kind = rng.choice(["EnergyResult", "KBandResult", "ResultDict"])
+            x = rand_tensor(rng, rank, (2,)).real.copy()
+            with quiet():
+                if kind == "KBandResult":
+                    res = KBandResult(x.reshape((1, 2) + (3,) * rank), transformTR=cT, transformInv=cI)
+                    out = res.transform(sym)
+                    slices = out.data.reshape((2,) + (3,) * rank)
+                else:
+                    res = EnergyResult(np.array([0.0, 1.0]), x.copy(), transformTR=cT, transformInv=cI, rank=rank)
+                    out = ResultDict({"q": res}).transform(sym).results["q"] if kind == "ResultDict" else res.transform(sym)
+                    slices = out.data
+            if out.rank != rank or out.transformTR != cT or out.transformInv != cI:
+                ctx.fail(f"{kind}.transform changes the rank / declared transforms of the result",
+                         dict(kind=kind, rank=rank, tTR=tT, tInv=tI))
+            we = wire_elems([elems[i]])
+            for isl in range(2):
+                lines.append(f"tt {we[0]} {we[1]} {we[2]} {rank} {wire_transform(tT)} {wire_transform(tI)} {wire_tensor(x[isl])}")
+                checks.append(("result.transform", dict(kind=kind, generators=names_g, element=i, rank=rank, tTR=tT, tInv=tI,
+                                                        slice=isl),
+                               ("tensor", fam, rank, np.asarray(slices[isl]).reshape((3,) * rank), True)))
+            ctx.count(f"corr.result_transform.{kind}")
+
     out = ctx.lean(lines)
     for line, o, (kind, case, exp) in zip(lines, out, checks):
-        ctx.case(signature=line, nontrivial=kind in ("gen", "table", "star", "tt", "sym", "mul", "checkbasis", "symgrid"))
+        ctx.case(signature=line, nontrivial=kind in ("gen", "table", "star", "tt", "sym", "mul", "checkbasis", "symgrid", "named",
+                                                    "rot", "mir", "result.transform"))
         if isinstance(exp, str):
             if o != exp:
                 ctx.mismatch(f"{kind}: model={o[:200]} code={exp[:200]}", dict(case, line=line[:2000]))
+        elif exp[0] == "qs3":
+            _, Rc, invc, trc = exp
+            if o in ("ERR", "bad-op"):
+                ctx.mismatch(f"{kind}: model gives {o}, the code built an operation", dict(case, line=line))
+            else:
+                pa, pb, pi, pt = o.split(" ")
+                Rm = (np.array([float(Fr(t)) for t in pa.split(",")]) + SQ3 * np.array([float(Fr(t)) for t in pb.split(",")])).reshape(3, 3)
+                if np.abs(Rm - Rc).max() > 1e-12 or (pi == "1") != invc or (pt == "1") != trc:
+                    ctx.mismatch(f"{kind}: model R={Rm.round(6).tolist()} Inv={pi} TR={pt}; code R={Rc.round(6).tolist()} "
+                                 f"Inv={invc} TR={trc}", dict(case, line=line))
         elif exp[0] == "elems":
             if o == "ERR":
                 ctx.mismatch("model could not generate a finite group", dict(case, line=line))
